@@ -411,6 +411,83 @@ def unary (op : UnOp) (a : Desc) : Option (M Res) :=
     else if a'.nrankV != 0 then (if a'.cls == .qube then some (throw .typeError) else none)   -- Vector.__abs__ = norm
     else some (pure same)
 
+/-! ### `**` (scalar.py:1533-1615, boolean.py:206) and the Scalar math functions (scalar.py:312-735): class, kind, shape,
+     rejection only (their values are judged by the oracle with a tolerance) -/
+
+/-- `Units.is_angle` / `Units.is_unitless` (units.py:153-173) -/
+def unitsIsAngle : Option (List Int) → Bool
+  | none => true
+  | some e => e == [0, 0, 0] || e == [0, 0, 1]
+def unitsIsUnitless : Option (List Int) → Bool
+  | none => true
+  | some e => e == [0, 0, 0]
+/-- `Units.sqrt` succeeds iff every exponent is even (units.py:348-354) -/
+def unitsSqrtOk : Option (List Int) → Bool
+  | none => true
+  | some e => e.all fun x => x % 2 == 0
+
+/-- `Scalar.__pow__(expo)` for a unit-less base. `negInt`: the exponent is of integer kind and has a negative value
+    ("without this step, negative int exponents on int values truncate to 0": the exponent is converted to float).
+    `none` = outside this view (powers of other classes: C16; powers of quantities with units: C12). -/
+def powDispatch (a b : Desc) (negInt : Bool) : Option (M Res) :=
+  let a' := if a.cls == .boolean then asInt a else a          -- Boolean.__pow__: self.as_int() ** arg
+  if !a.isQ || a'.cls != .scalar then none
+  else if a'.units.isSome then none
+  else some do
+    if a'.denom != [] then throw .valueError
+    -- "Interpret the exponent": a Scalar (Boolean is a subclass) is checked, anything else goes through Scalar(expo)
+    let e ← if b.isQ && (b.cls == .scalar || b.cls == .boolean) then
+        (if b.rank != 0 then throw .valueError
+         else if !unitsIsUnitless b.units then throw .valueError
+         else pure b)
+      else if b.isQ then
+        (if b.nrankV != 0 then throw .valueError else pure b)     -- Scalar(expo): numerator rank must be 0
+      else construct .scalar b.kind b.shape 0 0 none
+    match bcast a'.shape e.shape with
+    | none => throw .valueError
+    | some out =>
+      let k := if negInt then Kind.float else promote a'.kind e.kind
+      pure { cls := .scalar, kind := suitableDtype .scalar k, lead := out, numer := [], denom := [],
+             plan := .ew false 0 0 0 0 }
+
+inductive MathFn | sin | cos | tan | arcsin | arccos | arctan | sqrt | log | exp | sign
+  deriving DecidableEq, Repr
+
+/-- the unary Scalar math functions: denominators are rejected, the unit rule of each function, a float Scalar of the
+    same shape (`sign` keeps the kind). `none` = outside this view. -/
+def mathFn (f : MathFn) (a : Desc) : Option (M Res) :=
+  if !a.isQ || !(a.cls == .scalar || a.cls == .boolean) then none
+  else
+    let ok (k : Kind) : M Res := pure { cls := .scalar, kind := k, lead := a.shape, numer := [], denom := [],
+                                        plan := .ew false 0 0 0 0 }
+    match f with
+    | .sign => if a.denom != [] || a.cls == .boolean then none else some (ok a.kind)
+    | .sin | .cos | .tan | .exp =>
+      some (if a.denom != [] then throw .valueError else if !unitsIsAngle a.units then throw .valueError else ok .float)
+    | .arcsin | .arccos | .arctan =>
+      some (if a.denom != [] then throw .valueError else if !unitsIsUnitless a.units then throw .valueError
+            else ok .float)
+    | .log => some (if a.denom != [] then throw .valueError else ok .float)
+    | .sqrt =>
+      some (if a.denom != [] then throw .valueError else if !unitsSqrtOk a.units then throw .valueError else ok .float)
+
+/-- `Scalar.arctan2(self, arg)` (scalar.py:509-548) -/
+def arctan2Dispatch (y arg : Desc) : Option (M Res) :=
+  if !y.isQ || !(y.cls == .scalar || y.cls == .boolean) then none
+  else some do
+    -- x = Scalar.as_scalar(arg)
+    let x ← if arg.isQ then
+        (if arg.cls == .boolean then pure (asInt arg)
+         else if arg.cls == .scalar then pure arg
+         else if arg.nrankV != 0 then throw .valueError else pure arg)
+      else construct .scalar arg.kind arg.shape 0 0 none
+    if !unitsCanMatch y.units x.units then throw .valueError
+    if x.drank != 0 || y.drank != 0 then throw .valueError
+    match bcast y.shape x.shape with
+    | none => throw .valueError
+    | some out =>
+      pure { cls := .scalar, kind := .float, lead := out, numer := [], denom := [], plan := .ew false 0 0 0 0 }
+
 /-! ### values -/
 
 /-- reshape by inserting `r` unit axes at position `p`: the element at index `i` of the reshaped array is the element
